@@ -70,6 +70,28 @@ func InitGenesis(ctx context.Context, k keeper.Keeper, genState types.GenesisSta
 		}
 	}
 
+	// Rebuild the number of bids matched at the latest end time of each batch auction.
+	// It is what the extended round rule compares the next matching with; it is not part of
+	// the genesis state but equals the number of bids currently flagged as matched.
+	matchedBidsLen := map[uint64]int64{}
+	for _, elem := range genState.BidList {
+		if elem.IsMatched {
+			matchedBidsLen[elem.AuctionId]++
+		}
+	}
+	for _, elem := range genState.AuctionList {
+		auction, err := types.UnpackAuction(elem)
+		if err != nil {
+			return err
+		}
+		if auction.GetType() != types.AuctionTypeBatch || matchedBidsLen[auction.GetId()] == 0 {
+			continue
+		}
+		if err := k.SetMatchedBidsLen(ctx, auction.GetId(), matchedBidsLen[auction.GetId()]); err != nil {
+			return err
+		}
+	}
+
 	// Set all the vestingQueue
 	for _, elem := range genState.VestingQueueList {
 		_, err := k.Auction.Get(ctx, elem.AuctionId)
